@@ -226,6 +226,47 @@ theorem c18_iff_types_qualified {old new : Prog} {i n j m : Name}
       TypeChanged old new (.qual i n) (.qual j m) :=
   checkType_some ha hb
 
+/-! ### Every position is judged on its own (no masking) -/
+
+/-- The verdict is the OR over the checkers; namespaces and constants never contribute. -/
+theorem c18_verdict_or (c : Ctx) (old new : Prog) :
+    (auditWith c old new).any Finding.isError =
+      ((checkScopes c old.scopes new.scopes).any Finding.isError
+        || (checkEnums old.enums new.enums).any Finding.isError
+        || (checkStructLike c (ofKind .struct old.structs) (ofKind .struct new.structs)).any Finding.isError
+        || (checkStructLike c (ofKind .exception old.structs) (ofKind .exception new.structs)).any Finding.isError
+        || (checkStructLike c (ofKind .union old.structs) (ofKind .union new.structs)).any Finding.isError
+        || (checkServices c old.services new.services).any Finding.isError) := by
+  simp [auditWith, List.any_append, checkNamespaces_ok, checkConstants_ok, Bool.or_assoc]
+
+/-- Constants (and namespaces) cannot hide or cause an error: for the same comparison context
+the verdict is the same whatever the constants of the two programs are — in particular a
+constant whose type changed in the very same way as a field (a warning, logged first) leaves
+the error of that field in place. -/
+theorem c18_constants_never_mask (c : Ctx) (old new : Prog)
+    (cs cs' : List Const) (ns ns' : List Namespace) :
+    (auditWith c { old with consts := cs, namespaces := ns } { new with consts := cs', namespaces := ns' }).any
+        Finding.isError
+      = (auditWith c old new).any Finding.isError := by
+  rw [c18_verdict_or, c18_verdict_or]
+
+/-- Within a list of findings, an error stays an error whatever else is logged before or after. -/
+theorem c18_error_survives (pre post : List Finding) (k : Kind) :
+    (pre ++ [Finding.error k] ++ post).any Finding.isError = true := by
+  simp [Finding.isError]
+
+/-- A retyped struct field is an error of the audit whatever the rest of the two programs
+does (constants with the same change, other fields with the same pair of spellings, other
+errors and warnings): only the field's own pair of types matters. -/
+theorem c18_retyped_field_not_masked {old new : Prog} (ho : WF old) (hn : WF new)
+    {s s' : StructLike} {f g : Field} (hs : s ∈ old.structs) (hs' : s' ∈ new.structs)
+    (hk : s'.kind = s.kind) (hname : s'.name = s.name)
+    (hf : f ∈ s.fields) (hg : g ∈ s'.fields) (hid : g.id = f.id)
+    (hch : TypeChanged old new f.ty g.ty) :
+    (audit old new).any Finding.isError = true := by
+  rw [c18_iff ho hn]
+  exact Or.inr (Or.inr (Or.inl ⟨s, hs, Or.inr ⟨s', hs', hk, hname, Or.inl ⟨f, hf, g, hg, hid, Or.inl hch⟩⟩⟩))
+
 /-! ### The command line: `frugal -audit old f1 … fk` -/
 
 /-- The exit status is the OR of the per-file verdicts. -/
@@ -350,6 +391,16 @@ example : (audit (exInc (.qual "base" "ID") (.named "ID") (.base "i64"))
 example : cliAudit exOld [exCompat, exBroken, exOld] = true ∧
     cliFirstFailing exOld [exCompat, exBroken, exOld] = some 1 ∧
     cliAudit exOld [exCompat, exOld] = false := by decide
+
+/-- The same change `i32 → i64` at a constant (a warning, checked first) and at a field. -/
+def exMask (t : Ty) : Prog where
+  consts := [⟨"LIMIT", t, "5"⟩, ⟨"TABLE", .map (.base "string") t, "{}"⟩]
+  structs := [⟨.struct, "Row", [⟨1, "n", .dflt, t, none⟩, ⟨2, "deep", .dflt, .list (.map (.base "string") (.set t)), none⟩]⟩]
+
+example : WF (exMask (.base "i32")) ∧ WF (exMask (.base "i64")) := by decide
+example : (audit (exMask (.base "i32")) (exMask (.base "i64"))).any Finding.isError = true := by decide
+example : audit (exMask (.base "i32")) (exMask (.base "i64"))
+    = [.warning .type, .warning .type, .error .type, .error .type] := by decide
 
 /-! ### Known finding (KNOWN_FINDINGS.txt `include-typedef-second-hop`, shared with C02/C11)
 
